@@ -147,6 +147,9 @@ bool fibre_run_atomic(fibre_t *f)
 #ifndef STREAM_LEN
 #define STREAM_LEN 5 /* h_stream */
 #endif
+#ifndef EVS_LEN
+#define EVS_LEN 6 /* h_eval_step: injected text (the ring may be nearly full at the start, so short texts yield as well) */
+#endif
 #define TEXT_MAX 24
 
 #define IN_FIELDS(S, A)                                                                                       \
@@ -306,8 +309,6 @@ static bool learn_ok;
 
 static void learn_labels(void)
 {
-	static const char two[] = "0123456789abcdefX"; /* 17 characters: more than the ring holds */
-	pt_t ept;
 	small_table();
 	memset(&C, 0, sizeof(C));
 	ringbuf_init(&C.ring, C.ringbuf, sizeof(C.ringbuf));
@@ -322,14 +323,22 @@ static void learn_labels(void)
 	learn_ok = learn_ok && ringbuf_put(&C.ring, 'x') && ringbuf_put(&C.ring, '\n');
 	learn_ok = learn_ok && console_run(&C) == PT_YIELDED; /* the command "x" yields: the spawn point */
 	lbl_spawn = C.fibre.priv;
-	/* console_eval: a text longer than the ring makes it yield */
+	learn_ok = learn_ok && lbl_wait != 0 && lbl_spawn != 0 && lbl_wait != lbl_spawn;
+	STUB_K(RUN_K);
+}
+/* console_eval: a text that does not fit into what is left of the ring makes it yield */
+static void learn_eval_label(void)
+{
+	static const char two[] = "ab";
+	pt_t ept;
 	memset(&C, 0, sizeof(C));
 	ringbuf_init(&C.ring, C.ringbuf, sizeof(C.ringbuf));
+	for (unsigned j = 0; j + 2 < sizeof(C.ringbuf); j++)
+		learn_ok = learn_ok && ringbuf_put(&C.ring, '.'); /* room for one more */
 	PT_INIT(&ept);
 	learn_ok = learn_ok && console_eval(&ept, &C, two) == PT_YIELDED;
 	lbl_eval = ept;
-	learn_ok = learn_ok && lbl_wait != 0 && lbl_spawn != 0 && lbl_wait != lbl_spawn && lbl_eval != 0;
-	STUB_K(RUN_K);
+	learn_ok = learn_ok && lbl_eval != 0;
 }
 #define LEARNT() VASSERT(learn_ok, "C15 set-up: running the real console_run / console_eval once stops at the wait, spawn and yield points with the expected codes")
 
@@ -923,13 +932,14 @@ void h_eval_step(void)
 	pt_t ept;
 	VERIF_LOAD_INPUTS();
 	learn_labels();
+	learn_eval_label();
 	VASSUME(IN.nring < sizeof(C.ringbuf));
 	arbitrary_console(IN.nring);
 	line_with_cursor();
 	C.fibre.priv = lbl_wait;
 	for (unsigned j = 0; j < TEXT_MAX; j++)
 		VASSUME((j < IN.len) == (IN.text[j] != 0));
-	VASSUME(IN.len < TEXT_MAX);
+	VASSUME(IN.len <= EVS_LEN);
 	unsigned len = IN.len;
 	reset_observers();
 	struct snap s = snap_of();
@@ -965,8 +975,8 @@ void h_eval_step(void)
 		VASSERT(fixed_part_same(&s) && ring_r(&C) == r1 && args_same(&s) && C.bufp == s.bufp && C.cmd == s.cmd && C.pt == s.pt && scratch_same(&s, 0, CON_LINE),
 			"C15 console_eval writes only the ring and its own cursor");
 	}
-	VCOVER(r == PT_YIELDED && put == 15, "a ring-full of text");
-	VCOVER(r == PT_EXITED && len == 15, "text that just fits");
+	VCOVER(r == PT_YIELDED && put == 3 && len == EVS_LEN, "half of the text fits");
+	VCOVER(r == PT_EXITED && len == EVS_LEN && room == EVS_LEN, "text that just fits");
 	VCOVER(r == PT_YIELDED && put == 0, "ring full at the start");
 }
 
